@@ -2647,6 +2647,14 @@ class Interp:
                 c = c.constval() != 0
             if isinstance(c, (HostObj, Fraction, float, np.bool_, np.integer)):
                 c = bool(c)
+            if isinstance(c, (Rat, np.ndarray)) and getattr(self, 'generic_branches', False) and not FIELD['on']:
+                # host-side code branching on symbolic data: at a GENERIC point an equality / closeness test between
+                # symbolic values is false (the special points are a check's own, separate instances)
+                c2 = subst_atoms(c, lambda a_: Rat.lift(0) if isinstance(a_, Atom) and (
+                    a_.kind == 'allclose' or (a_.kind == 'bool' and a_.key[1] == '==')) else None)
+                c2 = Rat.lift(asarr(c2).ravel()[0]) if asarr(c2).size == 1 else c2
+                if isinstance(c2, Rat) and c2.is_const():
+                    c = c2.constval() != 0
             if not isinstance(c, (bool, type(None), int, str, tuple, list, dict)):
                 raise OutOfFragment('branch on abstract value: ' + ast.unparse(s.test))
             self.block(s.body if c else s.orelse, env, mod); return
